@@ -358,7 +358,7 @@ def c09_step(F):
             if n.blocking:
                 F.soft("C09:blocking-node-discarded-an-item@" + cls, {"node": n.id})
             else:
-                if cnt - prev != 1:
+                if cnt - prev != 1 and cls in ("Machine", "Source"):   # a splitter may drop several items of one pallet in one step
                     F.soft("C09:discard-count-rose-by-%d@%s" % (cnt - prev, cls), {})
                 if n.out_edge_selection == "FIRST_AVAILABLE":
                     es = list(n.out_edges)
@@ -373,6 +373,11 @@ def c09_step(F):
 
 def c09_instant(F):
     now = F.env.now
+    for n in F.nodes:
+        if n.__class__.__name__ in ("Machine", "Splitter", "Combiner", "Source") and not n.blocking:
+            waiting = [t for t in F.standing(kind="put", node=n) if not t.granted]
+            if waiting:
+                F.soft("C09:non-blocking-node-waits-for-space@" + n.__class__.__name__, {"edges": sorted({t.edge.id for t in waiting})})
     for n in F.nodes:
         if n.__class__.__name__ == "Source" and not n.blocking:
             first = sum(1 for r in F.items.values() if r.src is n)
